@@ -219,6 +219,20 @@ def big_task(pad):
     return text, meta, {"DAILY", "DURATION"}
 
 
+def _in_gap_hour(zone, hexinst):
+    """does the zone's UTC offset jump forward within three hours before this (UTC) instant?"""
+    import datetime as D
+    import zoneinfo
+    from ..common import unI
+    y, m, d, H, M, S, ms = unI(int(hexinst, 16))
+    if H == 0xff or not (1902 <= y <= 2037):
+        return False
+    z = zoneinfo.ZoneInfo(zone)
+    u = D.datetime(y, m, d, H, M, S, tzinfo=D.timezone.utc)
+    offs = [(u - D.timedelta(minutes=15 * k)).astimezone(z).utcoffset() for k in range(13, -1, -1)]
+    return any(b > a for a, b in zip(offs, offs[1:]))
+
+
 def ser_case(srv, part, rng, tier, forced=None):
     """(2) serialise after k pops, re-parse, compare"""
     text, meta, feats = forced if forced else full_language_event(rng)
@@ -284,6 +298,10 @@ def ser_case(srv, part, rng, tier, forced=None):
         # a failure of its own, not to be confused with the (listed) re-anchoring defects, which only ever move later
         if kind == "occurrences" and r0 and a0 and r0[0] != "-" and a0[0] != "-" and r0[0].split()[0] < a0[0].split()[0]:
             kind = "occurrences-replayed"
+        # the task is written with DTSTART = its next occurrence; when that one fell into a spring-forward gap its nominal
+        # wall-clock time cannot be written any more and the rule is re-anchored at the time the clocks jumped to (listed)
+        if kind == "occurrences" and meta.get("tzid") and a0 and a0[0] != "-" and _in_gap_hour(meta["tzid"], a0[0].split()[0]):
+            kind = "occurrences-gap-anchor"
         part.violation("ser/%s/%s/%s" % (fkey, kcls, kind),
                        dict(wit, original=a0[:8], reparsed=r0[:8],
                             summary="after %d pops the written task's %s differ at position %d: original %s, read back %s | rules: %s"
